@@ -117,6 +117,10 @@ KINDS = {
     'lazy': st.one_of(st.lists(json_any, max_size=6), st.lists(json_any, max_size=6), st.lists(json_any, max_size=6),
                       st.integers(8190, 8200).map(lambda n: list(range(n)))),
     'list_numpy': st.one_of(st.lists(np_arrays(), max_size=4), st.lists(np_arrays(), max_size=4),
+                            # equally shaped arrays of DIFFERENT dtypes (ids, mask, weights): each keeps its own dtype
+                            st.integers(1, 4).map(lambda n: [__import__('numpy').arange(n, dtype='int64') + 2 ** 60,
+                                                             __import__('numpy').arange(n) % 2 == 0,
+                                                             __import__('numpy').arange(n, dtype='float32') / 3]),
                             # a long list: element files beyond 1000 must still come back in order
                             st.integers(1001, 1030).map(lambda n: [__import__('numpy').array(i, dtype='int32')
                                                                    for i in range(n)])),
